@@ -1040,12 +1040,13 @@ class IRGenerator:
                     if not (field._ast_node.type_ref.nullable and default_value is None):
                         # Verify that the type of the default value is correct for this field
                         try:
+                            # Check the literal as written, then convert it
+                            field.data_type.check(default_value)
                             if (field.data_type.name in ('Float32', 'Float64') and
                                     isinstance(default_value, (int, float))):
                                 # You can assign int to the default value of float type
                                 # However float type should always have default value in float
                                 default_value = float(default_value)
-                            field.data_type.check(default_value)
                         except (ValueError, OverflowError) as e:
                             raise InvalidSpec(
                                 'Field %s has an invalid default: %s' %
